@@ -88,9 +88,13 @@ class Identifier(Node):
             for part in parsed
         ]
 
+        def is_combinator(t):
+            # an encoded combinator: '?>?', '?+?', '?~?'
+            return len(t) == 3 and t[0] == '?' and t[2] == '?'
+
         self.parsed = [[
             i for i, j in utility.pairwise(part)
-            if i != ' ' or (j and '?' not in j)
+            if i != ' ' or (j and not is_combinator(j))
         ] for part in parsed]
         return self
 
